@@ -28,13 +28,15 @@ PROP = dict(
           "3-6-cycles, forward and backward chains of 9..1500 pointers, pointers past the end / to the last byte / into the header / forwards, label lengths "
           "0x3f/0x40/0x7f/0x80/0xbf/0xc0/0xff/'rest of packet', RDLENGTH lies on A, CNAME and other records, type flips to A/CNAME, 1-4 byte flips, trailing bytes, "
           "QR clear, opcode, TC, every rcode 1-15 with full and short headers, ids off by one and random, random bytes of 0..64 bytes, CNAME names with NUL, '.', "
-          "high bytes. Every datagram is handed to the real DnsRequest::onUdpRecv (probe subclass) from an exactly sized heap block for a fresh lookup among 0-2 "
+          "high bytes; 4 replies per case whose CNAME records have RDLENGTH = name length + 1..40 slack bytes (zeros, random bytes, bytes shaped like a "
+          "complete A record or like a record header; the name literal, labels + pointer, or a bare 2-byte pointer) followed by further real A/CNAME records, with "
+          "unknown-type records carrying the same shaped bytes as control, plus cuts of one of them. Every datagram is handed to the real DnsRequest::onUdpRecv (probe subclass) from an exactly sized heap block for a fresh lookup among 0-2 "
           "other outstanding lookups, twice with differently pre-filled stacks; datagrams whose pointers form a cycle or a chain longer than 16 run in a forked "
           "child. Whatever the callback reports must be an in-order sub-sequence of the records completely present in the datagram under some reading of "
           "inconsistent RDLENGTHs; malformed datagrams may complete the lookup or be ignored. Non-trivial = the base reply carried at least one A/CNAME record; "
           "distinct = hash of the base reply. "
           "history / udp: 12-45 operations on one client with 1-3 servers under a virtual monotonic clock: lookup (30% with a callback that starts another lookup "
-          "or cancels another outstanding one), cancel (outstanding / finished / never issued id), reply to an outstanding lookup from a chosen server (well-formed "
+          "or cancels another outstanding one), cancel (outstanding / finished / never issued id), reply to an outstanding lookup from a chosen server (10% CNAME-with-slack replies as in the parse leg; of the rest well-formed "
           "42%, name error, format error, server failures rcode 2/4/5/6/9/15, malformed, query echoed back, neighbouring id), duplicate of any earlier datagram "
           "from the same or another server, stale reply for a finished lookup, datagram while nothing is outstanding, clock advance of 1..1000 ms, isRunning probes; "
           "then time runs until everything outstanding has timed out, and late replies for timed-out, cancelled and completed lookups are delivered. udp: same "
@@ -49,8 +51,13 @@ PROP = dict(
         "counts given and end exactly at the end of the datagram, labels <= 63 bytes of [A-Za-z0-9_-], names <= 255 bytes, compression pointers strictly backwards "
         "and at most 8 per name, A RDLENGTH 4, CNAME name filling its RDATA, class IN. Such a reply must complete the lookup with exactly its records. Any other "
         "rcode-0 datagram may complete the lookup (with kSuccess or kFail) or be ignored; what it reports is still held to 'encoded in the datagram'",
-        "'encoded in the datagram' is read generously: an A record counts if its own RDATA holds at least 4 bytes inside the datagram, a CNAME if its name decodes "
-        "from the start of its RDATA; where RDLENGTH and the name length disagree both continuations are accepted; class is ignored; 'abc.' and 'abc' are one name",
+        "'encoded in the datagram': every record is framed by its RDLENGTH (RFC 1035 3.2.1): an A record counts if its RDATA lies inside the datagram and holds at "
+        "least 4 bytes, a CNAME if its RDATA lies inside the datagram and its name decodes from the start of the RDATA; bytes of the RDATA behind the address / the name "
+        "are opaque and the next record starts at RDATA + RDLENGTH (only where a CNAME's name runs PAST its RDATA are both continuations tolerated); class is ignored; "
+        "'abc.' and 'abc' are one name",
+        "a rcode-0 reply that parses completely under RDLENGTH framing and ends at the end of the datagram, but is outside the narrow 'acceptable' class only for a "
+        "soft reason (slack behind a CNAME's name, odd label bytes, forward or deep pointers, TC/opcode/Z bits, question count, class) may be refused, but if the "
+        "client answers kSuccess from it the A and CNAME lists must be exactly its answer-section records (not a sub-sequence)",
         "error replies: rcode 3 -> kDomainError, rcode 1 -> kFail (as the Status enum documents); any other rcode counts as a server failure: no callback while fewer "
         "failures than servers have arrived, kAllDnsFail once every configured server has failed; while one server repeats its failure both waiting and completing "
         "are accepted. Error replies with fewer than 12 bytes or a non-zero opcode may be ignored",
@@ -85,6 +92,10 @@ PROP = dict(
             "strict_replies_with_compression", "datagrams_with_pointer_cycle", "datagrams_with_pointer_chain_over_16", "datagrams_run_in_isolated_child",
             "isolated_children_returned", "dgclass_ptr-self", "dgclass_ptr-2cycle", "dgclass_ptr-outside", "dgclass_ptr-chain-backward", "dgclass_ptr-chain-forward",
             "dgram_answer-cname-pointer-out-of-range", "dgram_answer-owner-pointer-loop", "dgclass_odd-names",
+            # record framing by RDLENGTH: CNAMEs with slack behind the name (shaped like records), real records behind them
+            "cname_rdlength_longer_than_name", "cname_slack_shaped_like_a_record", "cname_slack_shaped_like_a_record_header",
+            "cname_slack_after_compression_pointer", "records_after_slack_cname", "unknown_type_records_with_record_shaped_rdata",
+            "slack_cname_replies_delivered_exactly", "dgram_cname-rdlength-longer-than-name",
             # reported vs encoded, uninitialised reads
             "strict_replies_delivered", "strict_replies_with_cname", "strict_replies_with_other_types", "strict_replies_without_a_or_cname",
             "reported_records_checked_against_reference", "differential_pairs", "memcheck_datagrams",
